@@ -339,6 +339,8 @@ class Unit:
             if rw.get("must") and n == 0 and (not only or fnkey in only):
                 raise X.Undecided(f"lost anchor: rewrite {rw['rule']} pattern {rw['re']!r} no longer matches in {fnkey}")
             self._log(rw["rule"], fnkey, n, rw.get("note"))
+        # after the unit's own rewrites: a unit that has its own schema for an `enumerate()` loop has consumed it by now
+        text, n = X.r7_enumerate(text); self._log("R7-enumerate", fnkey, n)
         text, n = X.r8_closure(text, self.cfg.get("closure", []), fnkey); self._log("R8-closure-schema", fnkey, n)
         idents, pats = self._typemap()
         text, n = X.r4_typemap(text, idents, pats); self._log("R4-typemap", fnkey, n)
@@ -576,7 +578,19 @@ class Unit:
         be = match_close(st2, 0)
         loops = loop_headers(st2, 1, be)
         edits = []
-        for n, lspec in sp.loops.items():
+        loop_specs = dict(sp.loops)
+        # R7-enumerate: the counter of a normalised `enumerate()` loop equals the position of the ghost iterator
+        for n0, (li, bi0) in enumerate(loops, start=1):
+            hdr = body[st2[li].start:st2[bi0].start]
+            me = re.search(r"/\*@enum:(\w+)@\*/", hdr)
+            mk = re.search(r"\bit(\d+):", hdr)
+            if me and mk:
+                base = loop_specs.get(n0)
+                ls = LoopSpec(invariants=list(base.invariants) if base else [], decreases=list(base.decreases) if base else [],
+                              ensures=list(base.ensures) if base else [], raw_kw=base.raw_kw if base else "invariant")
+                ls.invariants.append(Clause("", f"__enum_{me.group(1)} == it{mk.group(1)}.index@"))
+                loop_specs[n0] = ls
+        for n, lspec in loop_specs.items():
             if n > len(loops):
                 raise X.Undecided(f"lost anchor: loop {n} of {fnkey} not found ({len(loops)} loops in source)")
             _, bi = loops[n - 1]
